@@ -5,6 +5,102 @@ use crate::oracle;
 use crate::util::{show_bytes, Ctx, R};
 use ssdeep::internal_hashes::{PartialFNVHash, RollingHash};
 
+/// Feeds `data` step by step to one RollingHash and one PartialFNVHash (sometimes replaced by
+/// a clone of themselves), choosing a form per step; compares after every step.
+fn steps(ctx: &mut Ctx, data: &[u8]) -> R {
+    let mut r = RollingHash::new();
+    let mut f = PartialFNVHash::new();
+    let mut fref = oracle::FNV_INIT;
+    let mut pos = 0usize;
+    let mut log = String::new();
+    while pos < data.len() {
+        let left = data.len() - pos;
+        let want_array = ctx.rng.chance(1, 2);
+        let k = if want_array { *ctx.rng.pick(&crate::util::ARRAY_NS) } else { ctx.rng.range(1, 24) }.min(left);
+        let chunk = &data[pos..pos + k];
+        let form = ctx.rng.below(8);
+        let name: &str = if want_array && crate::add_array_std!(r, chunk) {
+            crate::add_array_std!(f, chunk);
+            "+=array"
+        } else {
+            match form {
+                0 => {
+                    r.update(chunk);
+                    f.update(chunk);
+                    "update"
+                }
+                1 => {
+                    r.update_by_iter(chunk.iter().copied());
+                    f.update_by_iter(chunk.iter().copied());
+                    "update_by_iter"
+                }
+                2 => {
+                    let (it, _) = gen::odd_iter(&mut ctx.rng, chunk);
+                    r.update_by_iter(it);
+                    let (it, _) = gen::odd_iter(&mut ctx.rng, chunk);
+                    f.update_by_iter(it);
+                    "update_by_iter(inexact hint)"
+                }
+                3 => {
+                    r += chunk;
+                    f += chunk;
+                    "+=slice"
+                }
+                4 => {
+                    for &b in chunk {
+                        r += b;
+                        f += b;
+                    }
+                    "+=u8"
+                }
+                5 => {
+                    for &b in chunk {
+                        r.update_by_byte(b);
+                        f.update_by_byte(b);
+                    }
+                    "update_by_byte"
+                }
+                6 => {
+                    // continue on clones
+                    let (r2, f2) = (r.clone(), f.clone());
+                    r = r2;
+                    f = f2;
+                    r.update(chunk);
+                    f.update(chunk);
+                    "clone;update"
+                }
+                _ => {
+                    // chained calls on the returned &mut Self
+                    r.update(&chunk[..k / 2]).update_by_iter(chunk[k / 2..].iter().copied());
+                    f.update(&chunk[..k / 2]).update_by_iter(chunk[k / 2..].iter().copied());
+                    "update().update_by_iter()"
+                }
+            }
+        };
+        pos += k;
+        log.push_str(&format!("{}({}) ", name, k));
+        if log.len() > 1500 {
+            let cut = log.len() - 1200;
+            log = format!("...{}", &log[log[cut..].find(' ').map_or(cut, |i| cut + i)..]);
+        }
+        fref = oracle::fnv32(fref, chunk);
+        let want = oracle::roll_after(&data[..pos]);
+        ctx.check("rolling-every-step-mixed-forms", r.value() == want, || {
+            format!(
+                "input: {}\nsteps so far on one RollingHash (form(bytes), the last one is the failing step): {}\nafter {} bytes\nreal code: RollingHash value {:#010x}\noracle: h1+h2+h3 over the last 7 bytes = {:#010x}",
+                show_bytes(&data[..pos]), log, pos, r.value(), want
+            )
+        })?;
+        ctx.check("fnv-every-step-mixed-forms", f.value() as u32 == (fref & 63), || {
+            format!(
+                "input: {}\nsteps so far on one PartialFNVHash: {}\nafter {} bytes\nreal code: PartialFNVHash value {}\noracle: {}",
+                show_bytes(&data[..pos]), log, pos, f.value(), fref & 63
+            )
+        })?;
+    }
+    Ok(())
+}
+
 pub fn c19(ctx: &mut Ctx) -> R {
     // FNV step, exhaustively: all 64 states x 256 bytes (state reached by one leading byte)
     for first in 0u8..64 {
@@ -68,6 +164,9 @@ pub fn c19(ctx: &mut Ctx) -> R {
                 )
             })?;
         }
+        // every form mixed freely, the array forms `+= &[u8; N]` included, and ALWAYS more
+        // updates afterwards: value() against the definition after every single step
+        steps(ctx, &data)?;
         // the other update forms, over a random chunking
         let want_r = oracle::roll_after(&data);
         let want_f = oracle::fnv6(&data);
